@@ -373,6 +373,38 @@ func (r *c03run) run() error {
 			}
 		}
 	}
+	// (9) a sequence cut short by Suspend: the bytes already read are gone
+	// with the suspension, and what arrives after Resume is decoded on its
+	// own - the last byte of a key is then just that byte.
+	{
+		var srErr error
+		for i, ks := range seqs {
+			if len(ks.Seq) < 2 || (!thorough && i%8 != int(r.seed%8)) {
+				continue
+			}
+			last := ks.Seq[len(ks.Seq)-1]
+			w.feedHold([]byte(ks.Seq[:len(ks.Seq)-1]))
+			before := w.take()
+			w.runTo(w.S.Spawn("suspend-resume", func() {
+				_ = w.Scr.Suspend()
+				srErr = w.Scr.Resume()
+			}))
+			w.feedHold([]byte{last})
+			w.settle()
+			all := w.take()
+			r.cases++
+			want := runeDesc(rune(last), 0)
+			if last < ' ' {
+				want = ctrlDesc(last)
+			} else if last == 0x7f {
+				want = keyDesc(tcell.KeyBackspace2, 0)
+			}
+			okSingle := len(all) == 1 && (all[0] == want || (singles[string([]byte{last})] != nil && singles[string([]byte{last})].accepts(all[0])))
+			if srErr != nil || !okSingle {
+				r.fail("C03/key", "suspend-cut", ks.Seq, 0, "key %s: all but its last byte arrived (events so far %v), then Suspend and Resume (error %v), then the last byte %q: decoded to %v, expected just %s", ks.String(), before, srErr, string([]byte{last}), all, want)
+			}
+		}
+	}
 	if w.stall {
 		r.fail("C03/key", "stall", "", 0, "input pipeline did not reach quiescence within the step budget")
 	}
